@@ -20,14 +20,18 @@ Colls   == {"c0", "c1", "c2"}    \* c1 can be dropped and re-created; c2 is crea
 Modes   == {"CreateOrOpen", "CreateNew", "ReOpenExisting"}
 
 NoStore == [exists |-> FALSE, docs |-> [c \in Colls |-> {}], dd |-> FALSE, c1 |-> FALSE]
-NoHandle == [st |-> "free", n |-> "-", u |-> "-", stale |-> FALSE]
-NoFeed == [st |-> "none", n |-> "-", u |-> "-", colls |-> {}, kind |-> "-", done |-> FALSE]
+NoHandle == [st |-> "free", n |-> "-", u |-> "-", stale |-> FALSE, ep |-> 0]   \* ep: the registration it belongs to
+NoFeed == [st |-> "none", n |-> "-", u |-> "-", colls |-> {}, kind |-> "-", done |-> FALSE, loose |-> FALSE]
+(* loose: started through a handle whose cached collection c1 may be the dropped one - what it listens to is not specified *)
 
-Init0 == [reg   |-> [n \in Names |-> [url |-> "", cnt |-> 0]],
+(* A registration (epoch) begins when a name that is not registered is opened and ends when the bucket is deleted or *)
+(* the last handle of an on-disk bucket is closed; the handles opened during it share one database object.          *)
+Init0 == [reg   |-> [n \in Names |-> [url |-> "", cnt |-> 0, ep |-> 0]],
           store |-> [n \in Names |-> [u \in Urls |-> NoStore]],
           hs    |-> [h \in Handles |-> NoHandle],
           fd    |-> [f \in FeedIds |-> NoFeed],
-          wid   |-> 0]
+          wid   |-> 0,
+          nep   |-> 0]
 
 Registered(S, n) == S.reg[n].url # ""
 OpenHandlesOf(S, n) == {h \in Handles : S.hs[h].st = "open" /\ S.hs[h].n = n}
@@ -52,7 +56,8 @@ Act(kind, h, n, u, mode, c, f, fk) == [kind |-> kind, h |-> h, n |-> n, u |-> u,
 Expect(S, a) ==
     LET hd == S.hs[a.h] IN
     CASE a.kind = "Open" -> ExpectOpen(S, a.n, a.u, a.mode)
-      [] a.kind \in {"Close", "CloseAndDelete"} -> "ok"
+      [] a.kind = "Close" -> "ok"
+      [] a.kind = "CloseAndDelete" -> IF Registered(S, hd.n) /\ S.reg[hd.n].ep = hd.ep THEN "ok" ELSE "any"
       [] a.kind = "Write" ->
             IF hd.st = "open" THEN (IF hd.stale /\ a.c = "c1" THEN "any" ELSE "ok")
             ELSE IF hd.st = "closed" THEN "closed" ELSE "any"
@@ -72,25 +77,35 @@ Apply(S, a) ==
     LET hd == S.hs[a.h] IN
     CASE a.kind = "Open" ->
            IF ExpectOpen(S, a.n, a.u, a.mode) # "ok" THEN S
-           ELSE [S EXCEPT !.reg[a.n] = [url |-> a.u, cnt |-> S.reg[a.n].cnt + 1],
+           ELSE LET ep == IF Registered(S, a.n) THEN S.reg[a.n].ep ELSE S.nep + 1 IN
+                [S EXCEPT !.reg[a.n] = [url |-> a.u, cnt |-> S.reg[a.n].cnt + 1, ep |-> ep],
+                          !.nep = IF Registered(S, a.n) THEN @ ELSE @ + 1,
                           !.store[a.n][a.u] = IF S.store[a.n][a.u].exists THEN S.store[a.n][a.u]
                                                ELSE [exists |-> TRUE, docs |-> [c \in Colls |-> {}], dd |-> FALSE, c1 |-> FALSE],
-                          !.hs[a.h] = [st |-> "open", n |-> a.n, u |-> a.u, stale |-> FALSE]]
+                          !.hs[a.h] = [st |-> "open", n |-> a.n, u |-> a.u, stale |-> FALSE, ep |-> ep]]
       [] a.kind = "Close" ->
            IF hd.st # "open" THEN S      \* closing a closed (or dead) handle again changes nothing
            ELSE LET cnt == S.reg[hd.n].cnt - 1
                     last == cnt = 0 /\ hd.u # "mem" IN
                 [S EXCEPT !.hs[a.h].st = "closed",
-                          !.reg[hd.n] = IF last THEN [url |-> "", cnt |-> 0] ELSE [url |-> S.reg[hd.n].url, cnt |-> cnt],
+                          !.reg[hd.n] = IF last THEN [url |-> "", cnt |-> 0, ep |-> 0] ELSE [url |-> S.reg[hd.n].url, cnt |-> cnt, ep |-> S.reg[hd.n].ep],
                           !.fd = IF last THEN EndFeedsOf(S, hd.n) ELSE S.fd]
       [] a.kind = "CloseAndDelete" ->
-           IF hd.st # "open" THEN S
-           ELSE [S EXCEPT !.reg[hd.n] = [url |-> "", cnt |-> 0],
+           \* through any handle, open or closed, of the registration that is current: the bucket is deleted - the data, the
+           \* registry entry, every feed; the other handles are dead.  Through a handle of an earlier registration while
+           \* the name is registered again: nothing (the bucket that exists now is not its business).  While the name is
+           \* not registered: the data at the handle's URL, if any, is removed.
+           IF hd.st \notin {"open", "closed", "dead"} THEN S
+           ELSE IF Registered(S, hd.n) /\ S.reg[hd.n].ep = hd.ep THEN
+                [S EXCEPT !.reg[hd.n] = [url |-> "", cnt |-> 0, ep |-> 0],
                           !.store[hd.n][hd.u] = NoStore,
-                          !.hs = [h \in Handles |-> IF S.hs[h].n = hd.n /\ S.hs[h].st \in {"open", "closed"}
+                          !.hs = [h \in Handles |-> IF S.hs[h].n = hd.n /\ S.hs[h].ep = hd.ep /\ S.hs[h].st \in {"open", "closed"}
                                                     THEN [S.hs[h] EXCEPT !.st = IF h = a.h \/ S.hs[h].st = "closed" THEN "closed" ELSE "dead"]
                                                     ELSE S.hs[h]],
                           !.fd = EndFeedsOf(S, hd.n)]
+           ELSE IF Registered(S, hd.n) THEN S
+           ELSE [S EXCEPT !.store[hd.n][hd.u] = IF hd.u = "mem" THEN @ ELSE NoStore,
+                          !.hs[a.h].st = IF hd.st = "open" THEN "closed" ELSE hd.st]
       [] a.kind = "Write" ->
            IF hd.st # "open" \/ (hd.stale /\ a.c = "c1" /\ ~a.force) THEN S
            ELSE [S EXCEPT !.store[hd.n][hd.u].docs[a.c] = @ \cup {a.id}, !.wid = S.wid + 1,
@@ -111,10 +126,11 @@ Apply(S, a) ==
            IF hd.st # "open" THEN S
            ELSE [S EXCEPT !.store[hd.n][hd.u].c1 = (@ \/ a.fk = "multi" \/ (a.fk # "bucket" /\ a.c = "c1")),
                           !.fd[a.f] =
-                    IF a.fk \in {"dump", "dumpnb"} THEN [st |-> "ended", n |-> hd.n, u |-> hd.u, colls |-> {a.c}, kind |-> a.fk, done |-> TRUE]
+                    LET lo == hd.stale /\ (a.fk = "multi" \/ (a.fk # "bucket" /\ a.c = "c1")) IN
+                    IF a.fk \in {"dump", "dumpnb"} THEN [st |-> "ended", n |-> hd.n, u |-> hd.u, colls |-> {a.c}, kind |-> a.fk, done |-> TRUE, loose |-> lo]
                     ELSE [st |-> "running", n |-> hd.n, u |-> hd.u,
                           colls |-> IF a.fk = "multi" THEN {"c0", "c1"} ELSE IF a.fk = "bucket" THEN {"c0"} ELSE {a.c},
-                          kind |-> a.fk, done |-> FALSE]]
+                          kind |-> a.fk, done |-> FALSE, loose |-> lo]]
       [] a.kind = "PutDDoc" ->     \* a design document on collection c1
            IF hd.st # "open" \/ (hd.stale /\ ~a.force) THEN S
            ELSE [S EXCEPT !.store[hd.n][hd.u].dd = TRUE, !.store[hd.n][hd.u].c1 = TRUE]
@@ -126,7 +142,7 @@ Apply(S, a) ==
 Enabled(S) ==
     {Act("Open", h, n, u, m, "-", "-", "-") : h \in {x \in Handles : S.hs[x].st = "free"}, n \in Names, u \in Urls, m \in Modes}
     \cup {Act("Close", h, "-", "-", "-", "-", "-", "-") : h \in {x \in Handles : S.hs[x].st \in {"open", "closed", "dead"}}}
-    \cup {Act("CloseAndDelete", h, "-", "-", "-", "-", "-", "-") : h \in {x \in Handles : S.hs[x].st = "open"}}
+    \cup {Act("CloseAndDelete", h, "-", "-", "-", "-", "-", "-") : h \in {x \in Handles : S.hs[x].st \in {"open", "closed", "dead"}}}
     \cup {Act("Write", h, "-", "-", "-", c, "-", "-") : h \in {x \in Handles : S.hs[x].st \in {"open", "closed"}}, c \in Colls}
     \cup {Act("Drop", h, "-", "-", "-", "c1", "-", "-") : h \in {x \in Handles : S.hs[x].st = "open"}}
     \cup {Act("PutDDoc", h, "-", "-", "-", "c1", "-", "-") : h \in {x \in Handles : S.hs[x].st = "open"}}
